@@ -64,6 +64,23 @@ class SymSet:
     def __contains__(self, x):
         return any(_same(x, y) for y in self.items)
 
+    def issuperset(self, other):
+        return all(x in self for x in other)
+
+    def issubset(self, other):
+        other = other if isinstance(other, SymSet) else SymSet(other)
+        return all(x in other for x in self.items)
+
+    def update(self, other):
+        for x in other:
+            self.add(x)
+
+    def union(self, *others):
+        r = SymSet(self.items)
+        for o in others:
+            r.update(o)
+        return r
+
 
 def _same(x, y):
     if isinstance(x, tuple) or isinstance(y, tuple):
